@@ -47,6 +47,15 @@ func (r *region) alloc(n int) []float64 {
 	return s
 }
 
+// allocBytes carves a byte buffer out of the region.
+func (r *region) allocBytes(n int) []byte {
+	if n == 0 {
+		return []byte{}
+	}
+	fs := r.alloc((n + 7) / 8)
+	return unsafe.Slice((*byte)(unsafe.Pointer(&fs[0])), n)[:n:n]
+}
+
 func (r *region) freeze() error {
 	if r == nil {
 		return nil
@@ -72,18 +81,28 @@ func (r *region) contains(addr uintptr) bool {
 
 // pool is the set of operands shared by all tasks of a run.
 type pool struct {
-	lat    gen.Lattice
-	reg    *region
-	geoms  []geom.Geometry
-	seqs   []geom.Sequence
-	envs   []geom.Envelope
-	trees  []*rtree.RTree
-	items  [][]rtree.BulkItem // what each tree was loaded from (model copy)
-	pubG   []string           // digests at publication
-	pubS   []string
-	pubE   []string
-	pubT   []uint64
-	frozen bool
+	lat     gen.Lattice
+	reg     *region
+	geoms   []geom.Geometry
+	seqs    []geom.Sequence
+	envs    []geom.Envelope
+	trees   []*rtree.RTree
+	items   [][]rtree.BulkItem // what each tree was loaded from (model copy)
+	bufs    []sharedBuf        // encoded documents shared by all tasks (in the frozen region)
+	pubB    []uint64
+	pubG    []string // digests at publication
+	pubS    []string
+	pubE    []string
+	pubT    []uint64
+	frozen  bool
+	general bool
+}
+
+// sharedBuf is an encoded document that several tasks decode concurrently
+// (a driver row buffer, a mapped file): decoders must only read it.
+type sharedBuf struct {
+	format string // wkb | wkt | geojson | twkb
+	b      []byte
 }
 
 func fnv64(b []byte) uint64 {
@@ -105,13 +124,33 @@ func buildPool(m *vs.Stream, freeze bool) (*pool, error) {
 	}
 	ng := 2 + m.Intn(5, "pool/ngeoms")
 	zm := m.Intn(4, "pool/zm") == 3
-	for i := 0; i < ng; i++ {
-		cfg := gen.Cfg{MaxPts: 12, MaxParts: 3, Depth: 1 + m.Intn(2, "pool/depth"), CTypes: zm, Empties: m.Intn(4, "pool/empties") == 3}
-		if p.reg != nil {
-			cfg.Alloc = p.reg.alloc
+	// operand class: lattice (exact degeneracies are the common case) or
+	// general position (every vertex jittered off the lattice; admitted only
+	// if the whole pool's arrangement passes the clearance check)
+	general := m.Intn(4, "pool/class") == 3
+	for attempt := 0; ; attempt++ {
+		p.geoms = p.geoms[:0]
+		for i := 0; i < ng; i++ {
+			cfg := gen.Cfg{MaxPts: 12, MaxParts: 3, Depth: 1 + m.Intn(2, "pool/depth"), CTypes: zm, Empties: m.Intn(4, "pool/empties") == 3}
+			if general {
+				cfg.Jitter = 0.3
+			}
+			if p.reg != nil {
+				cfg.Alloc = p.reg.alloc
+			}
+			g := gen.New(m, p.lat, cfg)
+			p.geoms = append(p.geoms, g.Valid(cfg.Depth))
 		}
-		g := gen.New(m, p.lat, cfg)
-		p.geoms = append(p.geoms, g.Valid(cfg.Depth))
+		if !general {
+			break
+		}
+		if gen.ClearanceOK(p.geoms, 1e-6) {
+			p.general = true
+			break
+		}
+		if attempt >= 2 {
+			general = false // give up: fall back to the lattice class
+		}
 	}
 	for _, g := range p.geoms {
 		p.envs = append(p.envs, g.Envelope())
@@ -144,6 +183,49 @@ func buildPool(m *vs.Stream, freeze bool) (*pool, error) {
 		}
 		p.trees = append(p.trees, tr)
 	}
+	// shared encoded documents: real encodings of pool geometries (WKB also
+	// big- and mixed-endian, as foreign producers emit) and grammar-generated
+	// text documents no encoder emits
+	addBuf := func(format string, b []byte) {
+		dst := p.reg.allocBytes(len(b))
+		copy(dst, b)
+		p.bufs = append(p.bufs, sharedBuf{format, dst})
+	}
+	for i, g := range p.geoms {
+		if i >= 3 {
+			break
+		}
+		wkb := g.AsBinary()
+		switch m.Intn(3, "buf/endian") {
+		case 0:
+			addBuf("wkb", wkb)
+		case 1:
+			if f := gen.ScanWKB(wkb); f != nil {
+				wkb = gen.FlipEndian(wkb, f, false, m)
+			}
+			addBuf("wkb", wkb)
+		default:
+			if f := gen.ScanWKB(wkb); f != nil {
+				wkb = gen.FlipEndian(wkb, f, true, m)
+			}
+			addBuf("wkb", wkb)
+		}
+		switch m.Intn(3, "buf/text") {
+		case 0:
+			addBuf("wkt", []byte(g.AsText()))
+		case 1:
+			js, _ := g.MarshalJSON()
+			addBuf("geojson", js)
+		default:
+			if tw, err := geom.MarshalTWKB(g, m.Intn(4, "buf/prec"), geom.TWKBBoundingBoxHeader(), geom.TWKBSizeHeader()); err == nil {
+				addBuf("twkb", tw)
+			}
+		}
+	}
+	for i := 0; i < 2; i++ {
+		addBuf("geojson", []byte(gen.GrammarGeoJSON(m, 2)))
+		addBuf("wkt", []byte(gen.GrammarWKT(m, 2)))
+	}
 	if err := p.reg.freeze(); err != nil {
 		return nil, err
 	}
@@ -160,12 +242,26 @@ func buildPool(m *vs.Stream, freeze bool) (*pool, error) {
 	for _, t := range p.trees {
 		p.pubT = append(p.pubT, fnv64(t.VerifShape()))
 	}
+	for _, b := range p.bufs {
+		p.pubB = append(p.pubB, fnv64(b.b))
+	}
 	return p, nil
 }
 
 // verify re-digests every shared operand; it returns a description of the
 // first one that changed.
-func (p *pool) verify() string {
+func (p *pool) verify() (msg string) {
+	defer func() {
+		// a corrupted operand may make its own accessors panic
+		if r := recover(); r != nil {
+			msg = fmt.Sprintf("a shared operand can no longer be read: digesting it panicked: %v", r)
+		}
+	}()
+	for i, b := range p.bufs {
+		if fnv64(b.b) != p.pubB[i] {
+			return fmt.Sprintf("shared %s input buffer %d changed", b.format, i)
+		}
+	}
 	for i, g := range p.geoms {
 		if d := digestOf(g); d != p.pubG[i] {
 			return fmt.Sprintf("geometry operand %d changed: was %s now %s", i, clipS(p.pubG[i], 300), clipS(d, 300))
